@@ -41,5 +41,10 @@ theorem gen_templateSetDiti_ok : Generated.templateSetDiti = Spec.templateSetDit
 theorem gen_templateEvoAspirate_ok : Generated.templateEvoAspirate = Spec.templateEvoAspirate := by decide
 theorem gen_templateEvoDispense_ok : Generated.templateEvoDispense = Spec.templateEvoDispense := by decide
 theorem gen_templateEvoWash_ok : Generated.templateEvoWash = Spec.templateEvoWash := by decide
+theorem gen_orderAspirate_ok : Generated.orderAspirate = Spec.orderAspirate := by decide
+theorem gen_orderDispense_ok : Generated.orderDispense = Spec.orderDispense := by decide
+theorem gen_orderDistribute_ok : Generated.orderDistribute = Spec.orderDistribute := by decide
+theorem gen_orderEvoAspirate_ok : Generated.orderEvoAspirate = Spec.orderEvoAspirate := by decide
+theorem gen_orderEvoDispense_ok : Generated.orderEvoDispense = Spec.orderEvoDispense := by decide
 
 end Robotools.GenOK
